@@ -54,12 +54,45 @@ class Slice:
         self.inputs = set(inputs)  # local names that are inputs of the slice even though assigned from non-arithmetic code
         self.wrappers = set(wrappers)
         self.flags = {}
+        self.ast_env = {}  # local names assigned from non-arithmetic code -> that code (so that an input is recognised through helper variables)
+        self.opaque_canon = {self.canon(ast.parse(k, mode='eval').body): v for k, v in self.opaque.items()}
+
+    REDUCTIONS = {'sum', 'mean', 'min', 'max', 'std', 'prod'}
+
+    def canon(self, node, depth=5):
+        """canonical source text of an expression: helper variables that stand for non-arithmetic code replaced by that code, `x.sum(…)`
+        written as `np.sum(x, …)` (same for mean / min / max / std / prod), `np.asarray` as `np.array`"""
+        import copy
+        outer = self
+
+        class T(ast.NodeTransformer):
+            def __init__(self, d):
+                self.d = d
+
+            def visit_Name(self, n):
+                if isinstance(n.ctx, ast.Load) and n.id in outer.ast_env and self.d > 0:
+                    return T(self.d - 1).visit(copy.deepcopy(outer.ast_env[n.id]))
+                return n
+
+            def visit_Call(self, n):
+                self.generic_visit(n)
+                f = n.func
+                if isinstance(f, ast.Attribute) and f.attr in outer.REDUCTIONS and not (isinstance(f.value, ast.Name) and f.value.id == 'np'):
+                    return ast.Call(func=ast.Attribute(value=ast.Name(id='np', ctx=ast.Load()), attr=f.attr, ctx=ast.Load()),
+                                    args=[f.value] + n.args, keywords=n.keywords)
+                if isinstance(f, ast.Attribute) and isinstance(f.value, ast.Name) and f.value.id == 'np' and f.attr == 'asarray':
+                    f.attr = 'array'
+                return n
+
+        return ast.unparse(ast.fix_missing_locations(T(depth).visit(copy.deepcopy(node))))
 
     # ---------------------------------------------------------------- expressions
     def arith(self, node, env) -> str:
         src = ast.unparse(node)
-        if src in self.opaque:
-            p = self.opaque[src]
+        p = self.opaque.get(src)
+        if p is None and not isinstance(node, ast.Constant):
+            p = self.opaque_canon.get(self.canon(node))
+        if p is not None:
             if p not in self.params:
                 raise Untranslatable(f'input {p} not declared')
             return p
@@ -129,16 +162,20 @@ class Slice:
                 if isinstance(tg, ast.Name):
                     try:
                         env[tg.id] = self.arith(s.value, env)
+                        self.ast_env.pop(tg.id, None)
                     except Untranslatable:
                         env[tg.id] = tg.id if tg.id in self.inputs and tg.id in self.params else OPAQUE
+                        if env[tg.id] is OPAQUE:
+                            self.ast_env[tg.id] = s.value
                     continue
                 if isinstance(tg, ast.Tuple) and all(isinstance(e, ast.Name) for e in tg.elts):
                     for e in tg.elts:
                         env[e.id] = e.id if e.id in self.inputs and e.id in self.params else OPAQUE
                     continue
-                if isinstance(tg, ast.Subscript) and isinstance(tg.value, ast.Name) and isinstance(tg.slice, ast.Compare) \
-                        and tg.value.id in env and env[tg.value.id] is not OPAQUE:
-                    v = tg.value.id  # x[cond(x)] = value, element-wise
+                if isinstance(tg, ast.Subscript) and isinstance(tg.value, ast.Name) and tg.value.id in env and env[tg.value.id] is not OPAQUE \
+                        and (isinstance(tg.slice, ast.Compare) or (isinstance(tg.slice, ast.Name) and isinstance(env.get(tg.slice.id), str)
+                                                                    and any(o in env[tg.slice.id] for o in CMP.values()))):
+                    v = tg.value.id  # x[cond(x)] = value, element-wise (the mask may have been given a name first)
                     cond = self.arith(tg.slice, env)
                     env[v] = f'(if {cond} then {self.arith(s.value, env)} else {env[v]})'
                     continue
@@ -749,12 +786,14 @@ def slice_c06():
                        'S1 is computed as 2 x sum(D) - cumsum(insert(D, 0, 0)[:-1] + flip(D)) with D the squared lengths padded by one zero (GModel.Traj.s1)')
     sl = Slice(['S1', 'S2'], inputs={'S1', 'S2'})
     msd = next((n.value for n in fn.body if isinstance(n, ast.Assign) and ast.unparse(n.targets[0]) == 'msd'), None)
+    if msd is None and isinstance(fn.body[-1], ast.Return):
+        msd = fn.body[-1].value  # the combination written directly in the return statement
     if msd is None:
         raise Untranslatable('msd not assigned')
     out += ('\n/-- trajectory.py mean_squared_displacement: how the two terms are combined -/\n'
             f'def msdCombine (S1 S2 : Rat) : Rat :=\n  {sl.arith(msd, {})}\n')
     ret = fn.body[-1]
-    out += '\n' + flag('returnsMsd', isinstance(ret, ast.Return) and ast.unparse(ret.value) == 'msd', 'the combined value is what is returned')
+    out += '\n' + flag('returnsMsd', isinstance(ret, ast.Return) and (ast.unparse(ret.value) == 'msd' or ret.value is msd), 'the combined value is what is returned')
     # distances_from_base_position feeds the tracer diffusivity
     return HEADER + out + '\nend G.Gen\n'
 
